@@ -1,15 +1,494 @@
-//! C10 (stub, to be filled in)
-use crate::prng::Rng;
+//! C10 - pre-computed results can be substituted for closed sub-formulae.
+//!
+//! History explored: a result is *produced* by one evaluation (the raw set of a closed
+//! sub-formula), optionally *stored* in a result archive and reloaded into a rebuilt world, and
+//! *consumed* by another evaluation in which the sub-formula is replaced by a wild-card bound to
+//! that set - alone, with sharing disabled, and as a member of batches whose other members use the
+//! same labels, in several orders / entry points / observers / hash seeds.
+//! Oracle: the rewritten formula's result equals the original formula's result; a context that
+//! contains every label used never produces an error or a panic; a plain formula gives the same
+//! set through the plain and the extended entry points.
+
+use crate::ast::F;
+use crate::c04::{Variant, random_obs, run_variants_judged};
+use crate::evalx::{self, Gcv, Mode, ObsKind};
+use crate::exec::{Outcome, isolated};
+use crate::fgen::{self, Gen, Pool};
+use crate::prng::{Rng, fnv1a};
 use crate::scen::Report;
-use crate::world::World;
+use crate::world::{Env, World};
+use biodivine_hctl_model_checker::generate_output::build_result_archive;
+use biodivine_hctl_model_checker::load_inputs::load_bdd_bundle;
+use biodivine_hctl_model_checker::model_checking as mc;
 use serde_json::{Value, json};
+use std::collections::{BTreeMap, HashMap};
 
 #[derive(Clone, Debug, PartialEq)]
-pub struct C10 {}
-impl C10 {
-    pub fn to_json(&self) -> Value { json!({}) }
-    pub fn from_json(_v: &Value) -> Result<C10, String> { Ok(C10 {}) }
+pub struct C10 {
+    /// the formula with wild-cards in place of the replaced sub-formulae
+    pub rewritten: F,
+    /// label -> the closed sub-formula whose raw result the label is bound to
+    pub bindings: BTreeMap<String, F>,
+    /// store the raw results in an archive and reload them before use
+    pub via_archive: bool,
+    /// other members of the batch (may use the same labels)
+    pub extras: Vec<F>,
+    pub variants: Vec<Variant>,
+    pub hash_seed: u64,
 }
-pub fn generate(_rng: &Rng, _world: &World) -> C10 { C10 {} }
-pub fn check(_world: &World, _sc: &C10, _sandbox: &str) -> Report { Report::default() }
-pub fn shrinks(_sc: &C10) -> Vec<C10> { Vec::new() }
+
+pub fn expand(f: &F, bindings: &BTreeMap<String, F>) -> F {
+    match f {
+        F::Wild(w) => match bindings.get(w) {
+            Some(sub) => sub.clone(),
+            None => f.clone(),
+        },
+        F::Un(op, a) => F::Un(op, Box::new(expand(a, bindings))),
+        F::Bin(op, a, b) => F::Bin(op, Box::new(expand(a, bindings)), Box::new(expand(b, bindings))),
+        F::Hyb(op, v, d, a) => F::Hyb(op, v.clone(), d.clone(), Box::new(expand(a, bindings))),
+        _ => f.clone(),
+    }
+}
+
+impl C10 {
+    pub fn original(&self) -> F {
+        expand(&self.rewritten, &self.bindings)
+    }
+    pub fn to_json(&self) -> Value {
+        json!({
+            "rewritten": self.rewritten.to_json(),
+            "rewritten_text": self.rewritten.render(),
+            "original_text": self.original().render(),
+            "bindings": self.bindings.iter().map(|(l, f)| (l.clone(), f.to_json())).collect::<BTreeMap<_, _>>(),
+            "bindings_text": self.bindings.iter().map(|(l, f)| (l.clone(), f.render())).collect::<BTreeMap<_, _>>(),
+            "via_archive": self.via_archive,
+            "extras": self.extras.iter().map(|f| f.to_json()).collect::<Vec<_>>(),
+            "extras_text": self.extras.iter().map(|f| f.render()).collect::<Vec<_>>(),
+            "hash_seed": self.hash_seed,
+            "variants": self.variants.iter().map(|v| json!({
+                "order": v.order, "mode": v.mode.name(), "observer": v.obs.to_json(), "hash_seed": v.hash_seed
+            })).collect::<Vec<_>>(),
+        })
+    }
+    pub fn from_json(v: &Value) -> Result<C10, String> {
+        let mut bindings = BTreeMap::new();
+        if let Some(m) = v["bindings"].as_object() {
+            for (l, f) in m {
+                bindings.insert(l.clone(), F::from_json(f)?);
+            }
+        }
+        let mut extras = Vec::new();
+        for f in v["extras"].as_array().unwrap_or(&Vec::new()) {
+            extras.push(F::from_json(f)?);
+        }
+        let c = crate::c04::C04::from_json(&json!({"batch": [], "variants": v["variants"]}))?;
+        Ok(C10 {
+            rewritten: F::from_json(&v["rewritten"])?,
+            bindings,
+            via_archive: v["via_archive"].as_bool().unwrap_or(false),
+            extras,
+            variants: c.variants,
+            hash_seed: v["hash_seed"].as_u64().unwrap_or(0),
+        })
+    }
+}
+
+const NEW_LABELS: [&str; 6] = ["r0", "r1", "sub_2", "R", "res3", "t_"];
+
+fn overlaps(a: &[usize], b: &[usize]) -> bool {
+    let n = a.len().min(b.len());
+    a[..n] == b[..n]
+}
+
+pub fn generate(rng: &Rng, world: &World) -> C10 {
+    let mut r = rng.fork("c10.script");
+    let mut cfg = crate::c04::gen_cfg(world, &mut r);
+    cfg.max_size = r.range(8, 24);
+    cfg.pattern_weight = 2;
+    if r.chance(1, 3) {
+        cfg.labels.clear();
+        cfg.allow_wild = false;
+    }
+    let pool = Pool::generate(&mut r, &cfg);
+    let g = Gen { cfg: &cfg, pool: &pool };
+    // find a formula with closed sub-formulae worth replacing
+    let mut original = F::Const(true);
+    let mut paths: Vec<Vec<usize>> = Vec::new();
+    for _ in 0..12 {
+        original = g.formula(&mut r);
+        paths = fgen::closed_subformula_paths(&original, true);
+        if !paths.is_empty() {
+            break;
+        }
+    }
+    let mut chosen: Vec<Vec<usize>> = Vec::new();
+    if !paths.is_empty() {
+        let want = r.weighted(&[0, 5, 3, 2]);
+        for _ in 0..12 {
+            if chosen.len() >= want {
+                break;
+            }
+            let p = r.pick(&paths).clone();
+            if chosen.iter().all(|c| !overlaps(c, &p)) {
+                chosen.push(p);
+            }
+        }
+    }
+    let mut labels: Vec<&str> = NEW_LABELS.iter().copied().filter(|l| !world.context.contains_key(*l)).collect();
+    r.shuffle(&mut labels);
+    let mut bindings: BTreeMap<String, F> = BTreeMap::new();
+    let mut rewritten = original.clone();
+    for p in &chosen {
+        let sub = original.at(p).clone();
+        // identical sub-formulae may share a label (half of the time)
+        let existing = bindings.iter().find(|(_, f)| **f == sub).map(|(l, _)| l.clone());
+        let label = match existing {
+            Some(l) if r.chance(1, 2) => l,
+            _ => {
+                let l = labels[bindings.len() % labels.len()].to_string();
+                if bindings.contains_key(&l) { format!("{l}{}", bindings.len()) } else { l }
+            }
+        };
+        bindings.insert(label.clone(), sub);
+        rewritten = rewritten.replace_at(p, &F::Wild(label));
+    }
+    // other members of the batch
+    let mut extras = Vec::new();
+    let bl: Vec<String> = bindings.keys().cloned().collect();
+    for _ in 0..r.weighted(&[3, 3, 2, 1]) {
+        let f = match r.below(6) {
+            0 if !bl.is_empty() => F::wild(r.pick(&bl)),
+            1 if !bl.is_empty() => F::un(*r.pick(&["EX", "AX", "~", "EF"]), F::wild(r.pick(&bl))),
+            2 if !bl.is_empty() => {
+                let v = *r.pick(&fgen::NAME_POOL);
+                F::hyb("3", v, Some(r.pick(&bl).as_str()), F::hyb("@", v, None, F::un("AX", F::var(v))))
+            }
+            3 => original.clone(),
+            4 if !bl.is_empty() => bindings[r.pick(&bl)].clone(),
+            _ => g.formula(&mut r),
+        };
+        extras.push(f);
+    }
+    let n = 1 + extras.len();
+    let mut hs = rng.fork("c10.hash");
+    let mut variants = Vec::new();
+    let modes = [Mode::ExtDirty, Mode::ExtDirty, Mode::ExtSan, Mode::CliLoop];
+    let mut order: Vec<usize> = (0..n).collect();
+    variants.push(Variant { order: order.clone(), mode: *r.pick(&modes), obs: random_obs(&mut r, world), hash_seed: hs.next_u64() });
+    r.shuffle(&mut order);
+    variants.push(Variant { order: order.clone(), mode: *r.pick(&modes), obs: random_obs(&mut r, world), hash_seed: hs.next_u64() });
+    let pos = r.below(order.len() + 1);
+    order.insert(pos, 0);
+    variants.push(Variant { order, mode: *r.pick(&modes), obs: ObsKind::None, hash_seed: hs.next_u64() });
+    C10 { rewritten, bindings, via_archive: r.chance(1, 3), extras, variants, hash_seed: hs.next_u64() }
+}
+
+fn with_ctx(env: &Env, ctx: HashMap<String, Gcv>) -> Env {
+    Env { bn: env.bn.clone(), graph: env.graph.clone(), ctx, var_names: env.var_names.clone() }
+}
+
+pub fn check(world: &World, sc: &C10, sandbox: &str) -> Report {
+    let mut rep = Report::default();
+    let env = match world.build() {
+        Ok(e) => e,
+        Err(e) => {
+            rep.skipped = Some(format!("world does not build: {e}"));
+            return rep;
+        }
+    };
+    let original = sc.original();
+    if !original.is_closed() || !original.well_scoped() || sc.bindings.values().any(|f| !f.is_closed()) {
+        rep.skipped = Some("scenario is not a closed substitution".to_string());
+        return rep;
+    }
+    rep.probe("scenarios", 1);
+    // produce: the original result and the raw results of the replaced sub-formulae
+    let want = match isolated(sc.hash_seed, || evalx::alone(&env, &original)) {
+        Outcome::Ok(s) => s,
+        other => {
+            rep.skipped = Some(format!("original formula does not evaluate: {}", other.describe()));
+            return rep;
+        }
+    };
+    rep.event(format!("original {}", evalx::set_sig(&want)));
+    let mut raws: HashMap<String, Gcv> = HashMap::new();
+    for (i, (l, sub)) in sc.bindings.iter().enumerate() {
+        match isolated(sc.hash_seed.wrapping_add(1 + i as u64), || evalx::alone(&env, sub)) {
+            Outcome::Ok(s) => {
+                rep.event(format!("raw {l} {}", evalx::set_sig(&s)));
+                raws.insert(l.clone(), s);
+            }
+            other => {
+                rep.skipped = Some(format!("sub-formula for {l} does not evaluate: {}", other.describe()));
+                return rep;
+            }
+        }
+    }
+    // store: optionally through a result archive and a rebuilt world
+    let mut env2_owner: Option<Env> = None;
+    if sc.via_archive && !raws.is_empty() {
+        let path = format!("{sandbox}/c10-store.zip");
+        let _ = std::fs::remove_file(&path);
+        let formulae: Vec<String> = sc.bindings.values().map(|f| f.render()).collect();
+        let model = env.bn.to_string();
+        let saved = isolated(sc.hash_seed ^ 0xA1, || {
+            build_result_archive(raws.clone(), &path, &model, formulae.clone()).map_err(|e| e.to_string())
+        });
+        if !matches!(saved, Outcome::Ok(())) {
+            rep.skipped = Some(format!("fault-free save failed: {}", saved.describe()));
+            return rep;
+        }
+        // "restart": forget everything, rebuild the world, reload
+        let fresh = match world.build() {
+            Ok(e) => e,
+            Err(e) => {
+                rep.skipped = Some(e);
+                return rep;
+            }
+        };
+        let loaded = isolated(sc.hash_seed ^ 0xA2, || load_bdd_bundle(&path, fresh.graph.symbolic_context()));
+        match loaded {
+            Outcome::Ok(m) => {
+                let mut ctx = fresh.ctx.clone();
+                for l in sc.bindings.keys() {
+                    match m.get(l) {
+                        Some(s) => {
+                            ctx.insert(l.clone(), s.clone());
+                        }
+                        None => {
+                            rep.skipped = Some(format!("label {l} missing after reload (C16's business)"));
+                            return rep;
+                        }
+                    }
+                }
+                rep.probe("stored_and_reloaded", 1);
+                env2_owner = Some(with_ctx(&fresh, ctx));
+            }
+            other => {
+                rep.skipped = Some(format!("fault-free reload failed: {}", other.describe()));
+                return rep;
+            }
+        }
+        let _ = std::fs::remove_file(&path);
+    }
+    let env2 = match env2_owner {
+        Some(e) => e,
+        None => {
+            let mut ctx = env.ctx.clone();
+            for (l, s) in &raws {
+                ctx.insert(l.clone(), s.clone());
+            }
+            with_ctx(&env, ctx)
+        }
+    };
+    rep.probe("replacements", sc.bindings.values().count() as u64);
+    rep.probe("wild_card_occurrences_substituted", sc.bindings.keys().map(|l| sc.rewritten.count_wild(l) as u64).sum());
+    rep.probe(
+        "substituted_inside_restricted_scope",
+        sc.rewritten
+            .paths()
+            .iter()
+            .filter(|p| matches!(sc.rewritten.at(p), F::Wild(w) if sc.bindings.contains_key(w)) && sc.rewritten.scope_at(p).iter().any(|(_, d)| d.is_some()))
+            .count() as u64,
+    );
+    rep.probe(
+        "substituted_inside_any_quantifier",
+        sc.rewritten
+            .paths()
+            .iter()
+            .filter(|p| matches!(sc.rewritten.at(p), F::Wild(w) if sc.bindings.contains_key(w)) && !sc.rewritten.scope_at(p).is_empty())
+            .count() as u64,
+    );
+    // consume: alone, with sharing disabled
+    for (tag, which) in [("alone", 0u64), ("nocache", 1)] {
+        let r = isolated(sc.hash_seed.wrapping_add(100 + which), || {
+            if which == 0 { evalx::alone(&env2, &sc.rewritten) } else { evalx::nocache(&env2, &sc.rewritten) }
+        });
+        rep.event(format!("{tag} rewritten {}", r.ok().map(evalx::set_sig).unwrap_or(r.describe())));
+        match r {
+            Outcome::Ok(s) => {
+                if !evalx::same_set(&s, &want) {
+                    rep.violate(
+                        "substituted_vs_original",
+                        format!(
+                            "`{}` with {:?} ({tag}): {} (substituted vs original `{}`)",
+                            sc.rewritten.render(),
+                            sc.bindings.iter().map(|(l, f)| format!("{l}:={}", f.render())).collect::<Vec<_>>(),
+                            evalx::describe_diff(&env, &s, &want),
+                            original.render()
+                        ),
+                    );
+                }
+            }
+            other => rep.violate(
+                "substituted_fails",
+                format!("`{}` ({tag}): the context holds every label, the original evaluates, the substituted formula {}", sc.rewritten.render(), other.describe()),
+            ),
+        }
+    }
+    // consume: as a member of batches whose other members use the same labels
+    let mut batch = vec![sc.rewritten.clone()];
+    let mut refs = vec![want.clone()];
+    let mut keep: Vec<usize> = vec![0];
+    for (i, e) in sc.extras.iter().enumerate() {
+        if e.quant_depth() > world.k as usize || !e.is_closed() || !e.well_scoped() {
+            continue;
+        }
+        if let Outcome::Ok(s) = isolated(sc.hash_seed.wrapping_add(200 + i as u64), || evalx::alone(&env2, e)) {
+            batch.push(e.clone());
+            refs.push(s);
+            keep.push(i + 1);
+        }
+    }
+    // orders refer to 0 = rewritten, i+1 = extras[i]; remap to the members that were kept
+    let variants: Vec<Variant> = sc
+        .variants
+        .iter()
+        .map(|v| Variant {
+            order: v.order.iter().filter_map(|o| keep.iter().position(|k| k == o)).collect(),
+            mode: v.mode,
+            obs: v.obs.clone(),
+            hash_seed: v.hash_seed,
+        })
+        .filter(|v| !v.order.is_empty())
+        .collect();
+    run_variants_judged(
+        &env2,
+        &batch,
+        &refs,
+        &variants,
+        &mut rep,
+        ["substituted_in_batch_vs_original", "substituted_in_batch_vs_original", "substituted_in_batch_vs_original"],
+        "the original evaluated alone",
+        &|i| i == 0,
+    );
+    // plain formula through the extended entry points with an empty context
+    if original.is_plain() {
+        let text = original.render();
+        let empty: HashMap<String, Gcv> = HashMap::new();
+        let plain = isolated(sc.hash_seed ^ 0xB1, || mc::model_check_formula_dirty(&text, &env.graph));
+        let ext = isolated(sc.hash_seed ^ 0xB2, || mc::model_check_extended_formula_dirty(&text, &env.graph, &empty));
+        let ext_multi = isolated(sc.hash_seed ^ 0xB3, || {
+            mc::model_check_multiple_extended_formulae_dirty(vec![&text], &env.graph, &empty).map(|v| v[0].clone())
+        });
+        let plain_san = isolated(sc.hash_seed ^ 0xB4, || mc::model_check_formula(&text, &env.graph));
+        let ext_san = isolated(sc.hash_seed ^ 0xB5, || mc::model_check_extended_formula(&text, &env.graph, &empty));
+        rep.probe("plain_via_extended", 1);
+        rep.event(format!("plain {} ext {}", plain.describe(), ext.describe()));
+        match (&plain, &ext, &ext_multi) {
+            (Outcome::Ok(a), Outcome::Ok(b), Outcome::Ok(c)) => {
+                if !evalx::same_set(a, b) || !evalx::same_set(a, c) {
+                    rep.violate("plain_via_extended", format!("`{text}`: plain entry point {} (plain vs extended with empty context)", evalx::describe_diff(&env, a, b)));
+                }
+            }
+            (Outcome::Ok(_), b, c) => {
+                rep.violate("plain_via_extended", format!("`{text}`: plain entry point ok, extended {} / {}", b.describe(), c.describe()));
+            }
+            _ => {}
+        }
+        match (&plain_san, &ext_san) {
+            (Outcome::Ok(a), Outcome::Ok(b)) => {
+                if !evalx::same_set(a, b) {
+                    rep.violate("plain_via_extended", format!("`{text}`: sanitised plain vs sanitised extended differ"));
+                }
+            }
+            (Outcome::Ok(_), b) => rep.violate("plain_via_extended", format!("`{text}`: sanitised plain ok, sanitised extended {}", b.describe())),
+            _ => {}
+        }
+    }
+    if !sc.bindings.is_empty() {
+        let mut sig = fnv1a(sc.rewritten.render().as_bytes());
+        for (l, f) in &sc.bindings {
+            sig ^= fnv1a(format!("{l}{}", f.render()).as_bytes()).rotate_left(11);
+        }
+        sig ^= sc.via_archive as u64;
+        rep.signature = Some(sig);
+    }
+    rep
+}
+
+pub fn shrinks(sc: &C10) -> Vec<C10> {
+    let mut out = Vec::new();
+    if !sc.variants.is_empty() {
+        let mut s = sc.clone();
+        s.variants.clear();
+        s.extras.clear();
+        out.push(s);
+    }
+    if sc.variants.len() > 1 {
+        for i in 0..sc.variants.len() {
+            let mut s = sc.clone();
+            s.variants = vec![sc.variants[i].clone()];
+            out.push(s);
+        }
+    }
+    if sc.via_archive {
+        let mut s = sc.clone();
+        s.via_archive = false;
+        out.push(s);
+    }
+    // drop an extra (orders refer to extras by index + 1)
+    for i in 0..sc.extras.len() {
+        let mut s = sc.clone();
+        s.extras.remove(i);
+        for v in s.variants.iter_mut() {
+            v.order = v.order.iter().filter(|x| **x != i + 1).map(|x| if *x > i + 1 { *x - 1 } else { *x }).collect();
+        }
+        s.variants.retain(|v| !v.order.is_empty());
+        out.push(s);
+    }
+    for (vi, v) in sc.variants.iter().enumerate() {
+        if v.order.len() > 1 {
+            for j in 0..v.order.len() {
+                let mut s = sc.clone();
+                s.variants[vi].order.remove(j);
+                out.push(s);
+            }
+        }
+        if v.obs != ObsKind::None {
+            let mut s = sc.clone();
+            s.variants[vi].obs = ObsKind::None;
+            out.push(s);
+        }
+        if v.mode != Mode::ExtDirty {
+            let mut s = sc.clone();
+            s.variants[vi].mode = Mode::ExtDirty;
+            out.push(s);
+        }
+    }
+    // undo one replacement (expand the label again)
+    if sc.bindings.len() > 1 {
+        for l in sc.bindings.keys() {
+            let mut one = BTreeMap::new();
+            one.insert(l.clone(), sc.bindings[l].clone());
+            let mut s = sc.clone();
+            s.rewritten = expand(&sc.rewritten, &one);
+            s.bindings.remove(l);
+            out.push(s);
+        }
+    }
+    // shrink the surrounding formula and the replaced sub-formulae
+    for g in sc.rewritten.shrinks() {
+        let mut s = sc.clone();
+        s.bindings.retain(|l, _| g.count_wild(l) > 0);
+        s.rewritten = g;
+        if !s.bindings.is_empty() {
+            out.push(s);
+        }
+    }
+    for (l, f) in &sc.bindings {
+        for g in f.shrinks() {
+            let mut s = sc.clone();
+            s.bindings.insert(l.clone(), g);
+            out.push(s);
+        }
+    }
+    for i in 0..sc.extras.len() {
+        for g in sc.extras[i].shrinks() {
+            let mut s = sc.clone();
+            s.extras[i] = g;
+            out.push(s);
+        }
+    }
+    out
+}
